@@ -98,6 +98,16 @@ def _real_coords(name, args):
             return ["ok"]
         except ValueError:
             return ["err"]
+    if name == "insidePt":
+        import numpy as np
+        reg = [float(C.tofrac(t)) for t in args[:4]]
+        r = co.inside((np.array([float(C.tofrac(args[4]))]), np.array([float(C.tofrac(args[5]))])), reg)
+        return ["true" if bool(r[0]) else "false"]
+    if name == "getRegion":
+        import numpy as np
+        es = np.array([float(C.tofrac(t)) for t in args[0].split(",")])
+        ns = np.array([float(C.tofrac(t)) for t in args[1].split(",")])
+        return [C.frs(Fraction(float(v))) for v in co.get_region((es, ns))]
     if name == "shapeToSpacing":
         w, e, s, n = (float(C.tofrac(t)) for t in args[:4])
         try:
